@@ -214,7 +214,7 @@ def run(ctx, spec):
         evaluations=counters["evaluations"], distinct_nontrivial=counters["with_matches"],
         rule="one evaluation = one run of the built binary on one flag vector of the full cross product "
              "(com x src x files{absent,one,several,glob,none-matching} x json x formatted-json x json-file x "
-             "formatted-json-file x replace-mode{absent,NEW,NOTHING,OVERWRITE,bogus} x no-output x "
+             "formatted-json-file x replace-mode{absent,NEW,NOTHING,OVERWRITE,bogus,empty value,lower case,CONFIRM} x no-output x "
              "program{find,replace,failing}) in a fresh scratch directory; non-trivial = the library found at "
              "least one match; all vectors are distinct",
         samples=samples, counters=counters, generator=stats,
